@@ -58,126 +58,499 @@ theorem far_field_simple (raw var nugget noise : ℝ) (hv : 0 < var) (hn : 0 ≤
 
 example : condValue (2:ℝ) 0 5 1 0.25 7 = 2 := honours_data 2 5 1 0.25 7
 
-/-! ## the cache state machine -/
+/-! ## the cache state machine
 
-/-- `Synced` as a proposition: the kriging matrix was built from the current conditions and model, and a
-    stored kriging result (if any) belongs to the current positions and is what a fresh object computes -/
+  `raw_krige` is stored in the CondSRF object, `krige_var` in the Krige object (each under a field name), positions are
+  shared; stored arrays carry an object identity and the CondSRF object remembers the pair stored by its last kriging run
+  (`ref`).  `step` is the repaired reuse rule (`Rule.bothRef`); `stepWith .present` / `stepWith .varRef` are the two
+  weaker rules, shown insufficient by the examples at the end. -/
+
+/-- **Link invariant** (holds in EVERY reachable state, whatever the operations): object identities are below the
+    counter, and a stored raw field / stored variance that are the remembered pair hold the result of one kriging run -/
+def LinkInv (s : State) : Prop :=
+  (∀ n r, s.raw n = some r → r.obj < s.nextObj) ∧
+  (∀ n v, s.var n = some v → v.obj < s.nextObj) ∧
+  (∀ i j, s.ref = some (i, j) → i < s.nextObj ∧ j < s.nextObj) ∧
+  (∀ n m r v, s.raw n = some r → s.var m = some v → s.ref = some (r.obj, v.obj) → r.tok = v.tok)
+
+/-- `Synced` as a proposition: the kriging matrix was built from the current conditions and model, and every kriging
+    variance stored in the Krige object belongs to the current positions and is what a fresh object computes.
+    (Nothing is required of the stored raw fields: they may be stale — they are only used through the link.) -/
 def Synced (s : State) : Prop :=
   s.matCond = s.cond ∧ s.matModel = s.model ∧
-  ∀ t, s.cache = some t → (s.pos = some t.pos ∧ t = freshTok s t.pos)
+  ∀ n v, s.var n = some v → (s.pos = some v.tok.pos ∧ v.tok = freshTok s v.tok.pos)
 
 /-- a freshly constructed object is in sync -/
 theorem init_synced (c m mu : Nat) : Synced (init c m mu) := by
-  simp [Synced, init]
+  simp [Synced, init, FieldStore.empty]
+
+theorem init_linkInv (c m mu : Nat) : LinkInv (init c m mu) := by
+  simp [LinkInv, init, FieldStore.empty]
+
+theorem setPos_pos (s : State) (p : Nat) : (setPos s p).pos = some p := by
+  unfold setPos; split <;> simp_all
+
+theorem krigeSetPos_pos (s : State) (p : Nat) : (krigeSetPos s p).pos = some p := by
+  unfold krigeSetPos; split <;> simp_all
 
 theorem setPos_synced (s : State) (p : Nat) (h : Synced s) : Synced (setPos s p) := by
   unfold setPos
   split
   · exact h
-  · exact ⟨h.1, h.2.1, by simp⟩
+  · exact ⟨h.1, h.2.1, by simp [FieldStore.empty]⟩
 
-theorem setPos_pos (s : State) (p : Nat) : (setPos s p).pos = some p := by
-  unfold setPos; split <;> simp_all
+theorem krigeSetPos_synced (s : State) (p : Nat) (h : Synced s) : Synced (krigeSetPos s p) := by
+  unfold krigeSetPos
+  split
+  · exact h
+  · exact ⟨h.1, h.2.1, by simp [FieldStore.empty]⟩
 
-/-- **every call made in a synced state returns what a freshly built object returns**, reused or not,
-    and leaves the object synced -/
-theorem call_fresh_of_synced (s : State) (p? : Option Nat) (h : Synced s) :
-    (∀ t r, (step s (.call p?)).2 = some (t, r) →
-        ∃ p, (step s (.call p?)).1.pos = some p ∧ t = freshTok (step s (.call p?)).1 p) ∧
-    Synced (step s (.call p?)).1 := by
-  simp only [step]
+theorem setPos_linkInv (s : State) (p : Nat) (h : LinkInv s) : LinkInv (setPos s p) := by
+  unfold setPos
+  split
+  · exact h
+  · exact ⟨by simp [FieldStore.empty], by simp [FieldStore.empty], h.2.2.1, by simp [FieldStore.empty]⟩
+
+theorem krigeSetPos_linkInv (s : State) (p : Nat) (h : LinkInv s) : LinkInv (krigeSetPos s p) := by
+  unfold krigeSetPos
+  split
+  · exact h
+  · exact ⟨h.1, by simp [FieldStore.empty], h.2.2.1, by simp [FieldStore.empty]⟩
+
+/-- the repaired reuse test succeeds only on the remembered pair -/
+theorem reusable_bothRef (s : State) (rn vn : Nat) (r v : Stored)
+    (h : reusable .bothRef s rn vn = some (r, v)) :
+    s.raw rn = some r ∧ s.var vn = some v ∧ s.ref = some (r.obj, v.obj) := by
+  unfold reusable at h
+  cases hr : s.raw rn with
+  | none => simp [hr] at h
+  | some r' =>
+    cases hv : s.var vn with
+    | none => simp [hr, hv] at h
+    | some v' =>
+      cases hf : s.ref with
+      | none => simp [hr, hv, hf] at h
+      | some ij =>
+        obtain ⟨i, j⟩ := ij
+        simp only [hr, hv, hf] at h
+        split at h
+        · rename_i hok
+          simp only [Bool.and_eq_true, decide_eq_true_eq] at hok
+          simp only [Option.some.injEq, Prod.mk.injEq] at h
+          obtain ⟨rfl, rfl⟩ := h
+          simp [hok.1, hok.2]
+        · simp at h
+
+/-- a fresh kriging run keeps the link invariant (any store / krige_store combination, any names) -/
+theorem freshRun_linkInv (s : State) (p rn : Nat) (st : Bool) (vn : Nat) (kst : Bool) (h : LinkInv s) :
+    LinkInv (freshRun s p rn st vn kst) := by
+  obtain ⟨h1, h2, h3, h4⟩ := h
+  have hraw : ∀ n r, (freshRun s p rn st vn kst).raw n = some r →
+      (r = ⟨computeTok s p, s.nextObj⟩ ∧ st = true) ∨ s.raw n = some r := by
+    intro n r hr
+    unfold freshRun at hr
+    cases st with
+    | false => right; simpa using hr
+    | true =>
+      simp only [if_true, FieldStore.set] at hr
+      by_cases hn : n = rn
+      · left; simp only [hn, if_true, Option.some.injEq] at hr; exact ⟨hr.symm, rfl⟩
+      · right; simpa [hn] using hr
+  have hvar : ∀ n v, (freshRun s p rn st vn kst).var n = some v →
+      (v = ⟨computeTok s p, s.nextObj + 1⟩ ∧ kst = true) ∨ s.var n = some v := by
+    intro n v hv
+    unfold freshRun at hv
+    cases kst with
+    | false => right; simpa using hv
+    | true =>
+      simp only [if_true, FieldStore.set] at hv
+      by_cases hn : n = vn
+      · left; simp only [hn, if_true, Option.some.injEq] at hv; exact ⟨hv.symm, rfl⟩
+      · right; simpa [hn] using hv
+  have hnext : (freshRun s p rn st vn kst).nextObj = s.nextObj + 2 := rfl
+  have href : (freshRun s p rn st vn kst).ref = if st && kst then some (s.nextObj, s.nextObj + 1) else none := rfl
+  refine ⟨?_, ?_, ?_, ?_⟩
+  · intro n r hr
+    rw [hnext]
+    rcases hraw n r hr with ⟨rfl, _⟩ | h'
+    · simp
+    · have := h1 n r h'; omega
+  · intro n v hv
+    rw [hnext]
+    rcases hvar n v hv with ⟨rfl, _⟩ | h'
+    · simp
+    · have := h2 n v h'; omega
+  · intro i j hij
+    rw [hnext]
+    rw [href] at hij
+    split at hij
+    · simp only [Option.some.injEq, Prod.mk.injEq] at hij
+      obtain ⟨rfl, rfl⟩ := hij
+      omega
+    · simp at hij
+  · intro n m r v hr hv hij
+    rw [href] at hij
+    split at hij
+    · simp only [Option.some.injEq, Prod.mk.injEq] at hij
+      obtain ⟨hi, hj⟩ := hij
+      rcases hraw n r hr with ⟨rfl, _⟩ | hr'
+      · rcases hvar m v hv with ⟨rfl, _⟩ | hv'
+        · rfl
+        · have := h2 m v hv'; omega
+      · have := h1 n r hr'; omega
+    · simp at hij
+
+theorem krigeCallAt_linkInv (s : State) (p : Nat) (store : Option Nat) (h : LinkInv s) :
+    LinkInv (krigeCallAt s p store) := by
+  have hk := krigeSetPos_linkInv s p h
+  unfold krigeCallAt
+  cases store with
+  | none => exact hk
+  | some vn =>
+    obtain ⟨h1, h2, h3, h4⟩ := hk
+    simp only []
+    refine ⟨?_, ?_, ?_, ?_⟩
+    · intro n r hr
+      have := h1 n r hr
+      show r.obj < (krigeSetPos s p).nextObj + 1
+      omega
+    · intro n v hv
+      show v.obj < (krigeSetPos s p).nextObj + 1
+      simp only [FieldStore.set] at hv
+      by_cases hn : n = vn
+      · simp only [hn, if_true, Option.some.injEq] at hv
+        subst hv; simp
+      · simp only [hn, if_false] at hv
+        have := h2 n v hv; omega
+    · intro i j hij
+      have := h3 i j hij
+      show i < (krigeSetPos s p).nextObj + 1 ∧ j < (krigeSetPos s p).nextObj + 1
+      omega
+    · intro n m r v hr hv hij
+      simp only [FieldStore.set] at hv
+      by_cases hm : m = vn
+      · simp only [hm, if_true, Option.some.injEq] at hv
+        subst hv
+        have := (h3 _ _ hij).2
+        simp at this
+      · simp only [hm, if_false] at hv
+        exact h4 n m r v hr hv hij
+
+/-- **the link invariant is preserved by every operation** — harmless or not, under every reuse rule -/
+theorem stepWith_linkInv (rule : Rule) (s : State) (op : Op) (h : LinkInv s) : LinkInv (stepWith rule s op).1 := by
+  cases op with
+  | call p? rn st vn kst =>
+    simp only [stepWith]
+    cases hp : targetPos s p? with
+    | none => exact h
+    | some p =>
+      simp only [callAt]
+      cases hr : reusable rule (setPos s p) rn vn with
+      | some rv => exact setPos_linkInv s p h
+      | none => exact freshRun_linkInv _ p rn st vn kst (setPos_linkInv s p h)
+  | krigeCall p? store =>
+    simp only [stepWith]
+    cases hp : targetPos s p? with
+    | none => exact h
+    | some p => exact krigeCallAt_linkInv s p store h
+  | setPos p => exact setPos_linkInv s p h
+  | krigeSetPos p => exact krigeSetPos_linkInv s p h
+  | setCondition c => exact ⟨h.1, by simp [stepWith, FieldStore.empty], h.2.2.1, by simp [stepWith, FieldStore.empty]⟩
+  | modelChange m => exact h
+  | setMean v => exact h
+  | deleteFields => exact ⟨by simp [stepWith, FieldStore.empty], h.2.1, h.2.2.1, by simp [stepWith, FieldStore.empty]⟩
+  | krigeDeleteFields => exact ⟨h.1, by simp [stepWith, FieldStore.empty], h.2.2.1, by simp [stepWith, FieldStore.empty]⟩
+
+theorem step_linkInv (s : State) (op : Op) (h : LinkInv s) : LinkInv (step s op).1 :=
+  stepWith_linkInv .bothRef s op h
+
+theorem run_linkInv (ops : List Op) (s : State) (h : LinkInv s) : LinkInv (run s ops).1 := by
+  induction ops generalizing s with
+  | nil => exact h
+  | cons op ops ih => exact ih _ (step_linkInv s op h)
+
+/-- **reuse implies one kriging run**: in a state satisfying the link invariant (every reachable state), whatever a call
+    of the repaired code uses as raw kriging field and as kriging variance — reused or freshly computed — stems from the
+    same kriging run -/
+theorem call_same_run (s : State) (p? : Option Nat) (rn : Nat) (st : Bool) (vn : Nat) (kst : Bool) (h : LinkInv s)
+    (tr tv : KrigeTok) (reused : Bool)
+    (hout : (step s (.call p? rn st vn kst)).2 = some (tr, tv, reused)) : tr = tv := by
+  simp only [step, stepWith] at hout
+  cases hp : targetPos s p? with
+  | none => simp [hp] at hout
+  | some p =>
+    simp only [hp, callAt] at hout
+    cases hr : reusable .bothRef (setPos s p) rn vn with
+    | none =>
+      simp only [hr, Option.some.injEq, Prod.mk.injEq] at hout
+      rw [← hout.1, ← hout.2.1]
+    | some rv =>
+      obtain ⟨r, v⟩ := rv
+      simp only [hr, Option.some.injEq, Prod.mk.injEq] at hout
+      obtain ⟨h1, h2, h3⟩ := reusable_bothRef _ rn vn r v hr
+      rw [← hout.1, ← hout.2.1]
+      exact (setPos_linkInv s p h).2.2.2 rn vn r v h1 h2 h3
+
+/-- **reuse implies linked**: when a call of the repaired code reuses stored results, the raw kriging field and the
+    kriging variance it uses are the stored arrays the CondSRF object remembers as the pair of its last kriging run -/
+theorem call_reuse_linked (s : State) (p? : Option Nat) (rn : Nat) (st : Bool) (vn : Nat) (kst : Bool)
+    (tr tv : KrigeTok) (hout : (step s (.call p? rn st vn kst)).2 = some (tr, tv, true)) :
+    ∃ r v, (step s (.call p? rn st vn kst)).1.raw rn = some r ∧ (step s (.call p? rn st vn kst)).1.var vn = some v ∧
+      (step s (.call p? rn st vn kst)).1.ref = some (r.obj, v.obj) ∧ tr = r.tok ∧ tv = v.tok := by
+  simp only [step, stepWith] at hout ⊢
+  cases hp : targetPos s p? with
+  | none => simp [hp] at hout
+  | some p =>
+    simp only [hp, callAt] at hout ⊢
+    cases hr : reusable .bothRef (setPos s p) rn vn with
+    | none => simp [hr] at hout
+    | some rv =>
+      obtain ⟨r, v⟩ := rv
+      simp only [hr, Option.some.injEq, Prod.mk.injEq] at hout
+      obtain ⟨h1, h2, h3⟩ := reusable_bothRef _ rn vn r v hr
+      exact ⟨r, v, h1, h2, h3, hout.1.symm, hout.2.1.symm⟩
+
+/-- all call outputs of a run use a raw kriging field and a kriging variance of one kriging run -/
+def AllSameRun : State → List Op → Prop
+  | _, [] => True
+  | s, op :: ops =>
+    (∀ tr tv reused, (step s op).2 = some (tr, tv, reused) → tr = tv) ∧ AllSameRun (step s op).1 ops
+
+/-- **C07, no mixing of kriging runs**: in EVERY history from a freshly built object — including direct kriging calls,
+    store / krige_store options with custom names, deletions on either object, in-place model and mean changes without
+    refresh — every conditioned field is built from a raw kriging field and a kriging variance of the same kriging run -/
+theorem histories_same_run (ops : List Op) (s : State) (h : LinkInv s) : AllSameRun s ops := by
+  induction ops generalizing s with
+  | nil => trivial
+  | cons op ops ih =>
+    refine ⟨?_, ih _ (step_linkInv s op h)⟩
+    intro tr tv reused hout
+    cases op with
+    | call p? rn st vn kst => exact call_same_run s p? rn st vn kst h tr tv reused hout
+    | krigeCall p? store =>
+      simp only [step, stepWith] at hout
+      cases hp : targetPos s p? <;> simp [hp] at hout
+    | setPos p => simp [step, stepWith] at hout
+    | krigeSetPos p => simp [step, stepWith] at hout
+    | setCondition c => simp [step, stepWith] at hout
+    | modelChange m => simp [step, stepWith] at hout
+    | setMean v => simp [step, stepWith] at hout
+    | deleteFields => simp [step, stepWith] at hout
+    | krigeDeleteFields => simp [step, stepWith] at hout
+
+/-- a fresh kriging run in a synced state stores what a fresh object computes -/
+theorem freshRun_synced (s : State) (p rn : Nat) (st : Bool) (vn : Nat) (kst : Bool) (hpos : s.pos = some p)
+    (h : Synced s) : Synced (freshRun s p rn st vn kst) := by
+  refine ⟨h.1, h.2.1, ?_⟩
+  intro n v hv
+  show s.pos = some v.tok.pos ∧ v.tok = freshTok s v.tok.pos
+  unfold freshRun at hv
+  cases kst with
+  | false => exact h.2.2 n v (by simpa using hv)
+  | true =>
+    simp only [if_true, FieldStore.set] at hv
+    by_cases hn : n = vn
+    · simp only [hn, if_true, Option.some.injEq] at hv
+      subst hv
+      exact ⟨hpos, by simp [computeTok, freshTok, h.1, h.2.1]⟩
+    · simp only [hn, if_false] at hv
+      exact h.2.2 n v hv
+
+/-- **every call made in a synced state returns what a freshly built object returns** — raw kriging field AND
+    kriging variance, reused or not, whatever the store / krige_store options and names — and leaves the object synced -/
+theorem call_fresh_of_synced (s : State) (p? : Option Nat) (rn : Nat) (st : Bool) (vn : Nat) (kst : Bool)
+    (hl : LinkInv s) (h : Synced s) :
+    (∀ tr tv r, (step s (.call p? rn st vn kst)).2 = some (tr, tv, r) →
+        ∃ p, (step s (.call p? rn st vn kst)).1.pos = some p ∧
+          tr = freshTok (step s (.call p? rn st vn kst)).1 p ∧ tv = freshTok (step s (.call p? rn st vn kst)).1 p) ∧
+    Synced (step s (.call p? rn st vn kst)).1 := by
+  simp only [step, stepWith]
   cases hp : targetPos s p? with
   | none => simp [h]
   | some p =>
     simp only [callAt]
     have hs := setPos_synced s p h
+    have hls := setPos_linkInv s p hl
     have hpos := setPos_pos s p
-    cases hc : (setPos s p).cache with
-    | some t =>
+    cases hc : reusable .bothRef (setPos s p) rn vn with
+    | some rv =>
+      obtain ⟨r, v⟩ := rv
       simp only []
       refine ⟨?_, hs⟩
-      intro t' r heq
+      intro tr tv b heq
       simp only [Option.some.injEq, Prod.mk.injEq] at heq
-      obtain ⟨rfl, _⟩ := heq
-      have h3 := hs.2.2 t hc
-      have : t.pos = p := by
-        have := h3.1; rw [hpos] at this; exact (Option.some.inj this).symm
-      exact ⟨p, hpos, by have h4 := h3.2; rw [this] at h4; exact h4⟩
+      obtain ⟨rfl, rfl, _⟩ := heq
+      obtain ⟨h1, h2, h3⟩ := reusable_bothRef _ rn vn r v hc
+      have hrv : r.tok = v.tok := hls.2.2.2 rn vn r v h1 h2 h3
+      have h4 := hs.2.2 vn v h2
+      have hvp : v.tok.pos = p := by
+        have := h4.1; rw [hpos] at this; exact (Option.some.inj this).symm
+      have hv : v.tok = freshTok (setPos s p) p := by have h5 := h4.2; rw [hvp] at h5; exact h5
+      exact ⟨p, hpos, by rw [hrv]; exact hv, hv⟩
     | none =>
       simp only []
       constructor
-      · intro t' r heq
+      · intro tr tv b heq
         simp only [Option.some.injEq, Prod.mk.injEq] at heq
-        obtain ⟨rfl, _⟩ := heq
-        exact ⟨p, hpos, by simp [computeTok, freshTok, hs.1, hs.2.1]⟩
-      · refine ⟨hs.1, hs.2.1, ?_⟩
-        intro t ht
-        simp only [Option.some.injEq] at ht
-        subst ht
+        obtain ⟨rfl, rfl, _⟩ := heq
+        refine ⟨p, hpos, ?_, ?_⟩ <;> simp [computeTok, freshTok, freshRun, hs.1, hs.2.1]
+      · exact freshRun_synced _ p rn st vn kst hpos hs
+
+/-- a direct kriging call on the underlying Krige object (given or stored positions, stored under any name or not at
+    all) keeps a synced object synced -/
+theorem krigeCall_synced (s : State) (p? : Option Nat) (store : Option Nat) (h : Synced s) :
+    Synced (step s (.krigeCall p? store)).1 := by
+  simp only [step, stepWith]
+  cases hp : targetPos s p? with
+  | none => exact h
+  | some p =>
+    simp only [krigeCallAt]
+    have hs := krigeSetPos_synced s p h
+    have hpos := krigeSetPos_pos s p
+    cases store with
+    | none => exact hs
+    | some vn =>
+      refine ⟨hs.1, hs.2.1, ?_⟩
+      intro n v hv
+      show (krigeSetPos s p).pos = some v.tok.pos ∧ v.tok = freshTok (krigeSetPos s p) v.tok.pos
+      simp only [FieldStore.set] at hv
+      by_cases hn : n = vn
+      · simp only [hn, if_true, Option.some.injEq] at hv
+        subst hv
         exact ⟨hpos, by simp [computeTok, freshTok, hs.1, hs.2.1]⟩
+      · simp only [hn, if_false] at hv
+        exact hs.2.2 n v hv
 
 /-- **the documented refresh (`krige.set_condition(...)`, with or without new data) always re-syncs**,
-    whatever happened before: stale stored results are dropped, the matrix is rebuilt -/
+    whatever happened before: the matrix is rebuilt and the stored kriging variances are dropped (a raw kriging field
+    that stays behind in the CondSRF object can no longer be reused: its partner is gone) -/
 theorem refresh_syncs (s : State) (c? : Option Nat) : Synced (step s (.setCondition c?)).1 := by
-  simp [step, Synced]
+  simp [step, stepWith, Synced, FieldStore.empty]
 
 theorem setPos_op_synced (s : State) (p : Nat) (h : Synced s) : Synced (step s (.setPos p)).1 :=
   setPos_synced s p h
 
+theorem krigeSetPos_op_synced (s : State) (p : Nat) (h : Synced s) : Synced (step s (.krigeSetPos p)).1 :=
+  krigeSetPos_synced s p h
+
 theorem delete_synced (s : State) (h : Synced s) : Synced (step s .deleteFields).1 := by
-  simp only [step]; exact ⟨h.1, h.2.1, by simp⟩
+  simp only [step, stepWith]; exact ⟨h.1, h.2.1, h.2.2⟩
+
+theorem krigeDelete_synced (s : State) (h : Synced s) : Synced (step s .krigeDeleteFields).1 := by
+  simp only [step, stepWith]; exact ⟨h.1, h.2.1, by simp [FieldStore.empty]⟩
 
 /-- operations that keep an object in sync -/
 def Harmless : Op → Prop
-  | .call _ | .setPos _ | .setCondition _ | .deleteFields => True
+  | .call .. | .krigeCall .. | .setPos _ | .krigeSetPos _ | .setCondition _ | .deleteFields | .krigeDeleteFields => True
   | .modelChange _ | .setMean _ => False
 
-theorem step_synced (s : State) (op : Op) (hop : Harmless op) (h : Synced s) : Synced (step s op).1 := by
+theorem step_synced (s : State) (op : Op) (hop : Harmless op) (hl : LinkInv s) (h : Synced s) :
+    Synced (step s op).1 := by
   cases op with
-  | call p => exact (call_fresh_of_synced s p h).2
+  | call p rn st vn kst => exact (call_fresh_of_synced s p rn st vn kst hl h).2
+  | krigeCall p store => exact krigeCall_synced s p store h
   | setPos p => exact setPos_op_synced s p h
+  | krigeSetPos p => exact krigeSetPos_op_synced s p h
   | setCondition c => exact refresh_syncs s c
   | deleteFields => exact delete_synced s h
+  | krigeDeleteFields => exact krigeDelete_synced s h
   | modelChange m => exact absurd hop (by simp [Harmless])
   | setMean v => exact absurd hop (by simp [Harmless])
 
-/-- all call outputs of a run are the fresh ones -/
+/-- all call outputs of a run are the fresh ones (raw kriging field and kriging variance) -/
 def AllFresh : State → List Op → Prop
   | _, [] => True
   | s, op :: ops =>
-    (∀ p t r, op = .call p → (step s op).2 = some (t, r) →
-        ∃ q, (step s op).1.pos = some q ∧ t = freshTok (step s op).1 q) ∧
+    (∀ tr tv r, (step s op).2 = some (tr, tv, r) →
+        ∃ q, (step s op).1.pos = some q ∧ tr = freshTok (step s op).1 q ∧ tv = freshTok (step s op).1 q) ∧
     AllFresh (step s op).1 ops
 
-/-- **C07, cache coherence**: starting from a synced object (e.g. a freshly built one, or any object
-    right after the documented refresh), every history of calls with new seeds/positions, `set_pos`,
-    `set_condition` (new data or refresh) and field deletions returns, at every call, exactly what a
-    freshly built object returns. -/
-theorem histories_fresh (ops : List Op) (hops : ∀ op ∈ ops, Harmless op) (s : State) (h : Synced s) :
+/-- **C07, cache coherence**: starting from a synced object (e.g. a freshly built one, or any object right after the
+    documented refresh), every history of CondSRF calls (new seeds/positions, every `store` / `krige_store` combination,
+    custom field names), direct kriging calls on the underlying Krige object (same or other positions, stored or not),
+    `set_pos` on either object, `set_condition` (new data or refresh) and field deletions on either object returns, at
+    every CondSRF call, exactly what a freshly built object returns. -/
+theorem histories_fresh (ops : List Op) (hops : ∀ op ∈ ops, Harmless op) (s : State) (hl : LinkInv s) (h : Synced s) :
     AllFresh s ops := by
   induction ops generalizing s with
   | nil => trivial
   | cons op ops ih =>
-    refine ⟨?_, ih (fun o ho => hops o (List.mem_cons_of_mem _ ho)) _
-      (step_synced s op (hops op (List.mem_cons_self ..)) h)⟩
-    intro p t r hop hout
-    subst hop
-    exact (call_fresh_of_synced s p h).1 t r hout
+    refine ⟨?_, ih (fun o ho => hops o (List.mem_cons_of_mem _ ho)) _ (step_linkInv s op hl)
+      (step_synced s op (hops op (List.mem_cons_self ..)) hl h)⟩
+    intro tr tv r hout
+    cases op with
+    | call p rn st vn kst => exact (call_fresh_of_synced s p rn st vn kst hl h).1 tr tv r hout
+    | krigeCall p? store =>
+      simp only [step, stepWith] at hout
+      cases hp : targetPos s p? <;> simp [hp] at hout
+    | setPos p => simp [step, stepWith] at hout
+    | krigeSetPos p => simp [step, stepWith] at hout
+    | setCondition c => simp [step, stepWith] at hout
+    | modelChange m => simp [step, stepWith] at hout
+    | setMean v => simp [step, stepWith] at hout
+    | deleteFields => simp [step, stepWith] at hout
+    | krigeDeleteFields => simp [step, stepWith] at hout
 
-/-- after ANY history, a refresh followed by harmless operations yields fresh results again -/
+/-- after ANY history (of any operations) of an object whose link invariant holds (e.g. a freshly built one), a refresh
+    followed by harmless operations yields fresh results again -/
 theorem refresh_then_fresh (pre : List Op) (c? : Option Nat) (post : List Op)
-    (hpost : ∀ op ∈ post, Harmless op) (s : State) :
+    (hpost : ∀ op ∈ post, Harmless op) (s : State) (hl : LinkInv s) :
     AllFresh (step (run s pre).1 (.setCondition c?)).1 post :=
-  histories_fresh post hpost _ (refresh_syncs _ c?)
+  histories_fresh post hpost _ (step_linkInv _ _ (run_linkInv pre s hl)) (refresh_syncs _ c?)
 
 /-- why the refresh is needed (documented behaviour, not a defect): after an in-place model change a
     stored result is reused although a fresh object would compute something else -/
-example : let s := (run (init 1 1 1) [.call (some 7), .modelChange 2]).1
-    ∃ t, (step s (.call none)).2 = some (t, true) ∧ t ≠ freshTok s 7 := by
+example : let s := (run (init 1 1 1) [.call (some 7) 0 true 0 true, .modelChange 2]).1
+    ∃ t, (step s (.call none 0 true 0 true)).2 = some (t, t, true) ∧ t ≠ freshTok s 7 := by
   refine ⟨_, rfl, by decide⟩
 
+/-- **the link test is necessary** (history 1, replayed on the package): under the unrepaired rule "both fields merely
+    present", `crf(pos); krige.set_condition(new); crf(store=False); crf()` — the `store=False` call re-stores the
+    kriging variance but not the raw kriging field — the last call REUSES the raw kriging field of the old conditions
+    together with the variance of the new ones; under the repaired rule the same history computes afresh. -/
+example : let h : List Op := [.call (some 7) 0 true 0 true, .setCondition (some 2), .call none 0 false 0 true]
+    let s := (runWith .present (init 1 1 1) h).1
+    (∃ tr tv, (stepWith .present s (.call none 0 true 0 true)).2 = some (tr, tv, true) ∧ tr ≠ tv ∧ tr ≠ freshTok s 7) ∧
+    (stepWith .bothRef (runWith .bothRef (init 1 1 1) h).1 (.call none 0 true 0 true)).2
+      = some (freshTok s 7, freshTok s 7, false) := by
+  refine ⟨⟨_, _, rfl, by decide, by decide⟩, by decide⟩
+
+/-- history 2: a direct kriging call re-stores the variance — same stale reuse under the unrepaired rule -/
+example : let h : List Op := [.call (some 7) 0 true 0 true, .setCondition (some 2), .krigeCall none (some 0)]
+    let s := (runWith .present (init 1 1 1) h).1
+    ∃ tr tv, (stepWith .present s (.call none 0 true 0 true)).2 = some (tr, tv, true) ∧ tr ≠ tv ∧ tr ≠ freshTok s 7 := by
+  exact ⟨_, _, rfl, by decide, by decide⟩
+
+/-- a direct kriging call at OTHER positions moves the shared positions and stores a variance for them while the CondSRF
+    object keeps its raw kriging field: the unrepaired rule pairs a raw field at positions 7 with a variance at positions 8 -/
+example : let h : List Op := [.call (some 7) 0 true 0 true, .krigeCall (some 8) (some 0)]
+    let s := (runWith .present (init 1 1 1) h).1
+    ∃ tr tv, (stepWith .present s (.call none 0 true 0 true)).2 = some (tr, tv, true) ∧ tr.pos = 7 ∧ tv.pos = 8 := by
+  exact ⟨_, _, rfl, by decide, by decide⟩
+
+/-- **remembering the variance object alone is not enough** (custom field names, replayed on the package): the second
+    run stores its raw kriging field under another name and its variance under the default name; a rule that only tests
+    "the stored variance is the remembered variance object" then reuses the OLD default-name raw kriging field with it.
+    The repaired rule (both stored arrays are the remembered pair) computes afresh. -/
+example : let h : List Op := [.call (some 7) 0 true 0 true, .setCondition (some 2), .call none 1 true 0 true]
+    let s := (runWith .varRef (init 1 1 1) h).1
+    (∃ tr tv, (stepWith .varRef s (.call none 0 true 0 true)).2 = some (tr, tv, true) ∧ tr ≠ tv ∧ tr ≠ freshTok s 7) ∧
+    (stepWith .bothRef (runWith .bothRef (init 1 1 1) h).1 (.call none 0 true 0 true)).2
+      = some (freshTok s 7, freshTok s 7, false) := by
+  refine ⟨⟨_, _, rfl, by decide, by decide⟩, by decide⟩
+
+/-- the repaired rule still reuses when nothing changed (the reuse the package's own test asserts) -/
+example : (step (run (init 1 1 1) [.call (some 7) 0 true 0 true]).1 (.call none 0 true 0 true)).2
+    = some (freshTok (init 1 1 1) 7, freshTok (init 1 1 1) 7, true) := by decide
+
 /-- the hypotheses are satisfiable by non-trivial histories -/
-example : AllFresh (init 1 1 1) [.call (some 7), .setCondition (some 2), .call none, .setPos 8, .call none] :=
-  histories_fresh _ (by intro op h; simp at h; rcases h with rfl | rfl | rfl | rfl | rfl <;> trivial) _ (init_synced 1 1 1)
+example : AllFresh (init 1 1 1)
+    [.call (some 7) 0 true 0 true, .setCondition (some 2), .call none 0 false 0 true, .call none 0 true 0 true,
+     .krigeCall (some 8) (some 0), .call none 1 true 0 true, .setPos 8, .call none 0 true 0 true] :=
+  histories_fresh _ (by intro op h; simp at h; rcases h with rfl | rfl | rfl | rfl | rfl | rfl | rfl | rfl <;> trivial) _
+    (init_linkInv 1 1 1) (init_synced 1 1 1)
+
+example : AllSameRun (init 1 1 1) [.call (some 7) 0 true 0 true, .modelChange 2, .krigeCall none (some 0), .call none 0 true 0 true] :=
+  histories_same_run _ _ (init_linkInv 1 1 1)
 
 end GSV.Props.C07
